@@ -1,7 +1,7 @@
 #!/bin/sh
 # usage: demo.sh <diplomat-tool binary>
 B=$1; D=$(dirname "$0"); T=$(mktemp -d)
-for b in bridge bridge_field bridge_struct; do
+for b in bridge bridge_field bridge_struct bridge_type_lifetime; do
 for be in dart js demo_gen kotlin c cpp nanobind; do
 mkdir -p "$T/$b/$be"; "$B" $be "$T/$b/$be" --entry "$D/$b.rs" --config-file /nonexistent.toml --config lib_name=x --config kotlin.domain=d >"$T/log" 2>&1
 echo "$b $be exit=$? $(grep -A1 panicked "$T/log" | tr '\n' ' ' | cut -c1-220)"
